@@ -84,7 +84,12 @@ pub fn fresh_world(hk: HKind) -> World {
     reset_ids();
     alloc::set_live(0);
     let mut w = World::new(hk);
-    w.r = probe_r();
+    // the properties fix the per-call quota at R = 8; the direct oracles use that constant, not
+    // whatever the crate was compiled with
+    w.r = 8;
+    if probe_r() != 8 {
+        w.fails.borrow_mut().push(DirectFail { props: vec!["C02", "C03"], op_index: 0, what: format!("the crate moves R = {} elements per call, the properties say 8", probe_r()) });
+    }
     w
 }
 
